@@ -10,7 +10,7 @@ from vlib import wenv
 PROPERTY = "C15"
 RULE = ("request targets in origin / absolute / '//'-prefixed / asterisk form built from segments with percent-escapes (valid, "
         "%00, %0a, %2f, invalid %zz, trailing %), raw bytes 0x01-0xff except SP, queries and fragments x methods x HTTP/1.0|1.1 x "
-        "header lists with repeats, empty values, OWS, obs-text x SCRIPT_NAME via process environment or forwarder header x worker "
+        "header lists with repeats, empty values, OWS, obs-text x SCRIPT_NAME via process environment or forwarder header (front end on the loopback, or a listed LAN peer with a different local address) x worker "
         "class; the environ the application received through the real handle() is compared with an independent RFC 3875 / PEP 3333 "
         "mapping of the raw request bytes (REQUEST_METHOD, RAW_URI, SERVER_PROTOCOL, QUERY_STRING, CONTENT_LENGTH, CONTENT_TYPE, "
         "every HTTP_*, PATH_INFO, SCRIPT_NAME). non-trivial = accepted request whose target has an escape, a byte >= 0x80 or a CTL, "
@@ -65,6 +65,8 @@ def strategy(tier):
         "body": st.sampled_from(["", "", "abc"]),
         # the same request is sent 1-3 times on one connection (keep-alive workers serve them all); a body may travel chunked, with trailers
         "times": st.sampled_from([1, 1, 2, 3]),
+        # where the front end sits: on the loopback (default allow list), or on the LAN (listed peer 192.0.2.5, gunicorn reached at 192.0.2.10)
+        "front": st.sampled_from(["loopback", "loopback", "lan"]),
         "listener": st.sampled_from(["tcp", "tcp", "unix", "tcp6"]),       # what the connection's listener is bound to
         "chunked": st.sampled_from([None, None, "plain", "trailers"]),
         # Expect: 100-continue at a drawn position among the headers; the interim response may fail to be sent (client gone)
@@ -206,10 +208,13 @@ def run_case(case):
     raw = ("\r\n".join(lines) + "\r\n\r\n" + body).encode("latin-1") * case.get("times", 1)
     prog = {"status": "200 OK", "headers": [], "mode": "list", "chunks": ["ok"], "read_input": "none"}
     app = wenv.AppProgram(prog)
-    cfg = wenv.make_cfg(keepalive=2, worker_connections=10, threads=2)
+    lan = case.get("front") == "lan" and case.get("listener") in (None, "tcp")
+    cfg = wenv.make_cfg(keepalive=2, worker_connections=10, threads=2, **({"forwarded_allow_ips": "192.0.2.5"} if lan else {}))
     env = wenv.Env(case["kind"], cfg, app)
     env.listener = wenv.FakeListener({"unix": "/run/verif/gunicorn.sock", "tcp6": ("::1", 8000, 0, 0)}.get(case.get("listener"), ("127.0.0.1", 8000)))
     sock = wenv.FakeSocket([raw], send_fault=(0, 32) if ex and ex[1] == "send-fails" else None)
+    if lan:
+        sock.peer, sock.local = ("192.0.2.5", 50000), ("192.0.2.10", 8000)
     try:
         if sn and sn[0] == "env":
             os.environ["SCRIPT_NAME"] = sn[1]
